@@ -819,6 +819,39 @@ def rule_dom(ctx):
             tr_name in ENTRY_TRAITS or (not d.get("trait") and re.match(r"^(fit|transform|predict)(_\w+)?$", d["name"]) is not None))
         if blanket or on_builder:
             entries.append(fn)
+    PLUMBING = ("Ok", "Err", "map_err", "from", "into", "branch", "from_residual", "from_output")
+
+    def dominated(tr, c0):
+        """(True, how) when all work follows a successful check; (False, event) with the first piece of work that does
+        not; the accepted shapes: `check()?` first / check().map|and_then(closure) [through map_err] / work only in the
+        Ok arm of a match (if let) on the check / an Err arm that returns before the work"""
+        calls = [e for e in tr.events if e.kind == "call" and e.name not in ("branch", "from_residual")]
+        cv = k(c0.val)
+        after = [e for e in calls if e.order > c0.order]
+        work = [e for e in after if e.name not in PLUMBING]
+        tried = [e for e in tr.events if e.kind == "try" and (k(e.val) == cv or cv in k(e.val))]
+        if tried:
+            t0 = tried[0]
+            late = [e for e in work if e.order <= t0.order and e.closure_depth == 0]
+            if not late:
+                return True, "check_ref()? first"
+        comb = [e for e in after if e.name in ("map", "and_then") and e.recv is not None and (k(e.recv) == cv or cv in k(e.recv))]
+        if len(comb) == 1:
+            outside = [e for e in work if e.closure_depth == 0 and e is not comb[0]]
+            if not outside and (k(tr.result) == k(comb[0].val) or k(comb[0].val) in k(tr.result)):
+                return True, "work inside check_ref().%s(|p| ..)" % comb[0].name
+
+        def in_ok_arm(e):
+            return any(g[0] == "+" and cv in g[1] and "~ Ok" in g[1].replace("std::result::Result::", "").replace("core::result::Result::", "") for g in e.guards)
+        err_rets = [e for e in tr.events if e.kind in ("ret", "iret") and any(g[0] == "+" and cv in g[1] and "~ Err" in g[1].replace("std::result::Result::", "").replace("core::result::Result::", "") for g in e.guards)]
+        loose = [e for e in work if e.closure_depth == 0 and not in_ok_arm(e)]
+        if err_rets:
+            r0 = min(e.order for e in err_rets)
+            loose = [e for e in loose if e.order < r0]
+        if not loose:
+            return True, "work only where the check returned Ok (match / if let on its result)"
+        return False, loose[0]
+
     for fn in entries:
         key = fn_key(fn)
         tr = Tracer(fn).run()
@@ -826,21 +859,20 @@ def rule_dom(ctx):
         calls = [e for e in tr.events if e.kind == "call" and e.name not in ("branch", "from_residual")]
         chk = [e for e in calls if e.name in ("check_ref", "check") and e.recv is not None and k(e.recv) == "param:self"]
         if not chk:
-            # the check may sit in a private helper of the same crate that receives self and the work as a closure
-            # (`with_checked(self, |p| p.fit(ds))`): expand such helpers in place and look again
+            # the check may sit in a private helper of the same crate that receives self (and possibly the work as a
+            # closure): expand such helpers in place and look again
             tr2 = Tracer(fn, inline=ctx.inliner()).run()
             calls2 = [e for e in tr2.events if e.kind == "call" and e.name not in ("branch", "from_residual")]
             chk2 = [e for e in calls2 if e.name in ("check_ref", "check") and e.recv is not None and k(e.recv) == "param:self"]
             if chk2:
                 c0 = chk2[0]
-                tried = [e for e in tr2.events if e.kind == "try" and k(e.val) == k(c0.val)]
-                direct_before = [e for e in calls2 if e.order < c0.order and e.closure_depth == 0]
-                direct_after = [e for e in calls2 if e.order > c0.order and e.closure_depth == 0]
-                if tried and not direct_before and all(e.order > tried[0].order for e in direct_after):
+                before2 = [e for e in calls2 if e.order < c0.order and e.closure_depth == 0 and e.name not in PLUMBING]
+                ok2, how2 = dominated(tr2, c0)
+                if ok2 and not before2:
                     res.ok()
-                    res.sample({"entry": key, "shape": "a private helper checks self first (`check_ref()?`) and only then runs the work it was handed as a closure"})
+                    res.sample({"entry": key, "shape": "through a private helper: " + how2})
                 else:
-                    res.undecided("%s : helper-shape" % key, "the check sits in a helper whose shape (check first, then the closure) could not be confirmed", fn_loc(fn))
+                    res.undecided("%s : helper-shape" % key, "the check sits in a helper whose shape (check first, then the work) could not be confirmed", fn_loc(fn))
                 continue
             res.violate("%s : no-check" % key, "entry point on an unchecked builder never calls check_ref/check on self", fn_loc(fn))
             continue
@@ -849,28 +881,12 @@ def rule_dom(ctx):
         if before:
             res.violate("%s : work-before-check" % key, "calls %s before the parameters are checked" % sorted(set(e.name for e in before)), fn_loc(fn, before[0].node["ln"]))
             continue
-        after = [e for e in calls if e.order > c0.order]
-        tried = [e for e in tr.events if e.kind == "try" and k(e.val) == k(c0.val)]
-        ok = False
-        if tried:
-            t0 = tried[0]
-            # everything else happens after the `?`
-            ok = all(e.order > t0.order for e in after)
-            how = "check_ref()? first"
-        else:
-            # Result::map / and_then on the check's own result; all other work inside that closure
-            comb = [e for e in after if e.name in ("map", "and_then") and e.recv is not None and k(e.recv) == k(c0.val)]
-            if len(comb) == 1:
-                # events of the closure body are emitted before the combinator's own call event
-                ok = all(e.closure_depth >= 1 or e is comb[0] for e in after)
-                # and the combinator's value is the function's result
-                ok = ok and k(tr.result) == k(comb[0].val)
-                how = "work inside check_ref().%s(|p| ..)" % comb[0].name
+        ok, how = dominated(tr, c0)
         if ok:
             res.ok()
             res.sample({"entry": key, "shape": how})
         else:
-            res.violate("%s : not-dominated" % key, "work is not dominated by a successful check (neither `check_ref()?` first nor `check_ref().map/and_then(..)`)", fn_loc(fn))
+            res.violate("%s : not-dominated" % key, "`%s` runs although the check may have failed: it is neither after `check_ref()?`, nor inside `check_ref().map/and_then(..)`, nor in the Ok arm of a match on the check's result" % how.name, fn_loc(fn, how.node.get("ln")))
     return res.finish(8)
 
 
